@@ -163,12 +163,72 @@ pub fn run_search_with_stopper(game: &Game, state: &mut PersistentState, limit: 
     r.map(|best| Outcome { best, infos: reporter.infos, polls, control })
 }
 
+/// One reported line in a form that both the in-process reporter and the binary's text give.
+#[derive(Clone, Debug)]
+pub struct Line {
+    pub depth: u8,
+    pub mate: Option<i16>,
+    pub pv: Vec<(u8, u8, u8)>,
+    pub text: String,
+}
+
+fn key_text(k: &(u8, u8, u8)) -> String {
+    let mut s = format!("{}{}", crate::refchess::sq_name(k.0), crate::refchess::sq_name(k.1));
+    if k.2 > 0 {
+        s.push(['p', 'n', 'b', 'r', 'q', 'k'][k.2 as usize]);
+    }
+    s
+}
+
+/// Parse one 'info depth .. score cp|mate .. pv ..' line of the binary.
+pub fn parse_info_line(l: &str) -> Option<Line> {
+    let toks: Vec<&str> = l.split_whitespace().collect();
+    if toks.first() != Some(&"info") {
+        return None;
+    }
+    let find = |k: &str| toks.iter().position(|t| *t == k);
+    let depth: u8 = toks.get(find("depth")? + 1)?.parse().ok()?;
+    let si = find("score")?;
+    let mate = match *toks.get(si + 1)? {
+        "mate" => Some(toks.get(si + 2)?.parse::<i16>().ok()?),
+        "cp" => {
+            toks.get(si + 2)?.parse::<i16>().ok()?;
+            None
+        }
+        _ => return None,
+    };
+    let pi = find("pv")?;
+    let mut pv = vec![];
+    for t in &toks[pi + 1..] {
+        if t.len() < 4 {
+            return None;
+        }
+        let from = crate::refchess::parse_sq(&t[0..2])?;
+        let to = crate::refchess::parse_sq(&t[2..4])?;
+        let promo = match t.chars().nth(4) {
+            None => 0,
+            Some('n') => 1,
+            Some('b') => 2,
+            Some('r') => 3,
+            Some('q') => 4,
+            Some(_) => return None,
+        };
+        pv.push((from, to, promo));
+    }
+    Some(Line { depth, mate, pv, text: l.to_string() })
+}
+
 /// C08 oracle over everything one search reported. `depth_limit`: the requested depth, if any.
 pub fn check_reports(pos: &Pos, infos: &[InfoRec], depth_limit: Option<u8>, st: &mut Stats) -> Result<(), Fail> {
+    let lines: Vec<Line> = infos.iter().map(|i| Line { depth: i.depth, mate: i.mate, pv: i.pv.iter().map(|m| mkey(*m)).collect(), text: i.text() }).collect();
+    check_lines(pos, &lines, depth_limit, st)
+}
+
+pub fn check_lines(pos: &Pos, infos: &[Line], depth_limit: Option<u8>, st: &mut Stats) -> Result<(), Fail> {
     let fen = pos.to_fen();
     let mut expect_depth = 1u8;
     for info in infos {
-        let line = info.text();
+        let line = &info.text;
         if info.depth != expect_depth {
             return Err(Fail::new("report:depth_sequence", format!("{fen}: reported depth {} where {} was due ({line})", info.depth, expect_depth)));
         }
@@ -185,10 +245,10 @@ pub fn check_reports(pos: &Pos, infos: &[InfoRec], depth_limit: Option<u8>, st: 
         let mut cur = pos.clone();
         for (i, m) in info.pv.iter().enumerate() {
             let legal = cur.legal_moves();
-            match legal.iter().find(|r| r.key() == mkey(*m)) {
+            match legal.iter().find(|r| r.key() == *m) {
                 Some(r) => cur = cur.make(r),
                 None => {
-                    return Err(Fail::new("report:illegal_pv_move", format!("{fen}: PV move #{} {m:?} is not legal in {} ({line})", i + 1, cur.to_fen())));
+                    return Err(Fail::new("report:illegal_pv_move", format!("{fen}: PV move #{} {} is not legal in {} ({line})", i + 1, key_text(m), cur.to_fen())));
                 }
             }
         }
@@ -197,7 +257,7 @@ pub fn check_reports(pos: &Pos, infos: &[InfoRec], depth_limit: Option<u8>, st: 
             if n == 0 {
                 return Err(Fail::new("report:mate_zero", format!("{fen}: 'mate 0' reported ({line})")));
             }
-            let want_len = if n > 0 { 2 * n as usize - 1 } else { 2 * (-n) as usize };
+            let want_len = if n > 0 { 2 * n as usize - 1 } else { 2 * (-(n as i32)) as usize };
             if info.pv.len() != want_len {
                 return Err(Fail::new("report:mate_length", format!("{fen}: mate {n} announced but the line has {} plies instead of {want_len} ({line})", info.pv.len())));
             }
@@ -344,9 +404,48 @@ pub fn mate_theme(t: &mut Tape) -> Option<Pos> {
     Some(p)
 }
 
+/// Capture storm: several queens a side attacking each other, so that even the depth-1 search
+/// (quiescence) exceeds the 10,000-node polling interval and a stop / expired limit is first seen
+/// before any iteration has completed (the "panic move" path).
+pub fn storm_theme(t: &mut Tape) -> Option<Pos> {
+    let mut p = Pos::empty();
+    let wk = crate::refchess::sq(t.pick(8) as i32, 0);
+    let bk = crate::refchess::sq(t.pick(8) as i32, 7);
+    p.board[wk as usize] = Some(Pc::new(true, Kind::K));
+    p.board[bk as usize] = Some(Pc::new(false, Kind::K));
+    let nq = 4 + t.pick(5);
+    for white in [true, false] {
+        for i in 0..nq {
+            // queens mostly in the middle ranks, a few minor pieces to vary the exchanges
+            let kind = if i < nq - 1 || t.pick(2) == 0 { Kind::Q } else { [Kind::R, Kind::N, Kind::B][t.pick(3)] };
+            for _ in 0..4 {
+                let s = crate::refchess::sq(t.pick(8) as i32, 1 + t.pick(6) as i32);
+                if p.board[s as usize].is_none() {
+                    p.board[s as usize] = Some(Pc::new(white, kind));
+                    break;
+                }
+            }
+        }
+    }
+    let w_in = p.attacked(wk, false);
+    let b_in = p.attacked(bk, true);
+    if w_in && b_in {
+        return None;
+    }
+    p.white_to_move = if b_in { false } else if w_in { true } else { t.pick(2) == 0 };
+    p.fullmove = 1 + t.pick(80) as u32;
+    p.validate().ok()?;
+    Some(p)
+}
+
 /// A searchable (non-terminal) game: root + moves. `mate_bias`: share of mate themes out of 8.
 pub fn gen_game(t: &mut Tape, mate_bias: usize, max_plies: usize) -> Option<(String, Vec<String>, Pos, &'static str)> {
-    let (root, src): (Pos, &'static str) = if t.pick(8) < mate_bias {
+    let special = t.pick(12);
+    let (root, src): (Pos, &'static str) = if special == 0 {
+        (storm_theme(t)?, "capture_storm")
+    } else if special == 1 {
+        (gen::gen_root(t, Mix::Sparse)?.pos, "sparse")
+    } else if t.pick(8) < mate_bias {
         (mate_theme(t)?, "mate_theme")
     } else {
         let r = if t.pick(5) == 0 { gen::gen_root(t, Mix::Tactical)? } else { gen::gen_root(t, Mix::Roots)? };
